@@ -147,6 +147,142 @@ def _validate_batch(batch, maxlen):
 
 
 # ------------------------------------------------------------------ documents
+
+TAGCFG = """SPECIFICATION TSpec
+INVARIANT RoundTrip
+CONSTRAINT Progress
+POSTCONDITION AllAccepted
+CHECK_DEADLOCK FALSE
+"""
+FIELD_ORDER = ("space", "name", "eq", "quote", "value", "quote")
+
+
+def dissect(tok):
+    """fields of a tag token as recorded from chameleon.parser.match_tag"""
+    from chameleon.parser import match_tag
+    d = match_tag(tok)
+    fields = [("prefix", d["prefix"]), ("name", d["name"])]
+    for a in d["attrs"]:
+        fields += [("space", a["space"]), ("aname", a["name"]), ("eq", a["eq"]), ("q1", a["quote"]), ("value", a["value"]),
+                   ("q2", a["quote"])]
+    fields.append(("suffix", d["suffix"]))
+    return [{"k": k, "text": to_classes(str(v if v is not None else ""))} for k, v in fields], fields
+
+
+def _tag_chunk(bodies):
+    sys.path.insert(0, REPO_SRC)
+    from chameleon import PageTemplate
+    from chameleon.exc import TemplateError
+    from chameleon.tokenize import iter_xml
+    from chameleon.parser import identify
+    traces, viol, n = [], [], 0
+    for body in bodies:
+        for src in ("<a" + body + ">", "<a" + body + "/>x", "<a" + body + ">t</a >"):
+            try:
+                toks = list(iter_xml(src))
+            except Exception as e:
+                viol.append(("tokenizer raised %s on %r" % (type(e).__name__, src), dict(kind="tagbody", source=src)))
+                continue
+            for tok in toks:
+                try:
+                    kind = identify(tok)
+                except TemplateError:
+                    continue
+                if kind not in ("start_tag", "empty_tag", "end_tag"):
+                    continue
+                try:
+                    fl, raw = dissect(tok)
+                except Exception as e:
+                    viol.append(("parser raised %s: %s on the tag token %r" % (type(e).__name__, e, str(tok)), dict(kind="tagbody", source=src)))
+                    continue
+                traces.append({"tok": to_classes(str(tok)), "fields": fl, "src": str(tok)})
+            n += 1
+            try:
+                got = PageTemplate(src)()
+            except TemplateError:
+                continue
+            except Exception as e:
+                viol.append(("statement-free document %r is rejected with %s: %s (not a template error)" % (src, type(e).__name__, e),
+                             dict(kind="tagbody", source=src)))
+                continue
+            if got != src:
+                viol.append(("statement-free document does not render to itself\n  source: %r\n  output: %r" % (src, got),
+                             dict(kind="tagbody", source=src, output=got)))
+    return traces, viol, n
+
+
+def _validate_tags(batch):
+    wd = workdir("tagtr")
+    try:
+        json.dump([{"tok": t["tok"], "fields": t["fields"]} for t in batch], open(os.path.join(wd, "traces.json"), "w"))
+        open(os.path.join(wd, "TagFields.cfg"), "w").write(TAGCFG)
+        shutil.copy(os.path.join(os.path.dirname(__file__), "..", "..", "specs", "TagFields.tla"), wd)
+        r = run_tlc("TagFields", "TagFields.cfg", wd, workers=1, timeout=3000, deadlock=True, java_opts=["-Xmx4g"],
+                    env_extra={"TRACE_FILE": os.path.join(wd, "traces.json")})
+    finally:
+        shutil.rmtree(wd, ignore_errors=True)
+    import re
+    rejected = None
+    m = re.search(r'"REJECTED",\s*\{(.*?)\}', r.stdout, re.S)
+    if m:
+        rejected = [int(x) for x in m.group(1).replace("\n", " ").split(",") if x.strip().isdigit()]
+    elif "REJECTED" in r.stdout:
+        rejected = []
+    return r.rc, rejected, r.states, r.distinct, r.violation, r.stdout[-1500:]
+
+
+def tags_part(ctx, maxlen):
+    """every attribute area over {space, letter, =, ", ', /} up to a length bound: the fields the parser cuts each tag
+    token into are validated by TLC against specs/TagFields.tla; the documents must render to themselves"""
+    import multiprocessing
+    chars = [" ", "a", "=", '"', "'", "/"]
+    bodies = ["".join(c) for n in range(0, maxlen + 1) for c in itertools.product(chars, repeat=n)]
+    # a few longer bodies: names made of the letters n, t, r; slashes inside unquoted values
+    bodies += [" b n=1", ' hidden t="1" r', " checked tr=x nt", " href=/x/y class=z", " b=c/d e=f", " a b\n =\n 'c' d", " b=/", " b=/ c=d"]
+    chunks = [bodies[i::16] for i in range(16)]
+    with multiprocessing.get_context("fork").Pool(16) as pool:
+        res = pool.map(_tag_chunk, chunks)
+    traces = []
+    for tr, viol, n in res:
+        traces += tr
+        ctx.replays += n
+        for text, payload in viol[:3]:
+            if len(ctx.violations) < 8:
+                ctx.violation(text, payload)
+    B = 50000
+    batches = [traces[i:i + B] for i in range(0, len(traces), B)]
+    with multiprocessing.get_context("fork").Pool(min(8, max(1, len(batches)))) as pool:
+        vres = pool.map(_validate_tags, batches)
+    for (rc, rejected, states, distinct, violation, tail), b in zip(vres, batches):
+        ctx.states += distinct
+        ctx.transitions += states
+        if violation:
+            ctx.violation("TLC: %s violated while validating tag dissections" % violation, dict(kind="tagfields", tail=tail))
+        elif rejected is not None:
+            for i in rejected[:3]:
+                t = b[i - 1]
+                ctx.violation("the fields the parser cuts the tag token %r into are rejected by TagFields (not a loss-free, well-formed "
+                              "dissection): %s" % (t["src"], [(f["k"], "".join(CLASSES.get(c, "?") for c in f["text"])) for f in t["fields"]]),
+                              dict(kind="tagfields", token=t["src"]))
+            if not rejected:
+                ctx.violation("tag dissections rejected by TagFields: %s" % tail[-300:], dict(kind="tagfields"))
+        elif rc != 0:
+            ctx.fail("TagFields run failed: %s" % tail)
+    ctx.traces += len(traces)
+    ctx.notes["tag_dissections_validated"] = len(traces)
+    # negative control: a dissection that drops one character must be rejected
+    if traces:
+        t = next((t for t in traces if len(t["fields"]) > 3 and t["fields"][2]["text"]), None)
+        if t:
+            bad = {"tok": t["tok"], "fields": [dict(f) for f in t["fields"]], "src": t["src"]}
+            bad["fields"][2] = {"k": bad["fields"][2]["k"], "text": bad["fields"][2]["text"][1:]}
+            rc, rejected, *_ = _validate_tags([bad])
+            ctx.notes["tagfields_negative_control"] = "lossy dissection rejected" if rejected is not None else "ACCEPTED"
+            if rejected is None:
+                ctx.fail("negative control: lossy tag dissection accepted by TagFields")
+    ctx.parts.append(dict(tag="TagFields.C2S", traces=len(traces), bodies=len(bodies)))
+
+
 FILL = {
     ("text", "plain"): ["hello world", "x", " a b "],
     ("text", "entity"): ["a &amp; b &lt;c&gt; &nbsp;&copy;", "&quot;q&quot; &apos;"],
@@ -173,8 +309,8 @@ ATTRS = {
     "none": [""],
     "dq": [' class="a b"', ' id="x1" title=""'],
     "sq": [" class='a \"b\"'", " data-x='1'"],
-    "unquoted": [" width=100", " a=b c=d"],
-    "valueless": [" hidden", " a b"],
+    "unquoted": [" width=100", " a=b c=d", " href=/x/y class=z", " b=c/d e=f", " src=a/b.png"],
+    "valueless": [" hidden", " a b", " b n=1", ' hidden t="1" r', " checked tr=x nt"],
     "mixedcase": [' CLASS="A" onClick="f()"', ' Id="1"'],
     "spaced": ['  class = "a"\n   id\t=\t"b" ', '\n  x="1"\n', ' a="1"\r\n     b="2"', '\r\n  x="1"', ' a="1"\rb="2" c="3"\r', ' a="1"\r\n\n   b="2"', '\r\n\n\n x="1"\n\r'],
     "multi": [' a="1" b=\'2\' c=3 d', ' z="1" a="2" m="3"'],
@@ -310,6 +446,7 @@ def run(ctx):
     quick = ctx.tier == "quick"
     model_run(ctx, 5 if quick else 6)
     trace_part(ctx, 4 if quick else 5, rnd)
+    tags_part(ctx, 5 if quick else 7)
     docs_part(ctx, rnd, quick)
     ctx.exhaustive = True
     ctx.rule = ("tokenizer: every string over the 13-character markup alphabet up to length %d (exhaustive) plus the "
